@@ -7,7 +7,8 @@ import S3V.Model.PostPolicy
 import S3V.Crypto.All
 /-!
 Driver for components `sigv4` (pure functions), `sigv4e2e` (header authentication end to end),
-`sigv4pre` (presigned URLs end to end), `sigv4post` (POST policy signature end to end).
+`sigv4pre` (presigned URLs end to end), `sigv4post` (POST policy signature end to end), `sigmix` (C07: requests with
+signature material of several kinds; the dispatcher model `SigDispatch.dispatch` answers for all of them).
 Case-line layouts are documented in `harness/src/bin/h_sigv4*.rs`.
 -/
 open S3V S3V.SigV4
@@ -416,7 +417,7 @@ def judge (fs : List String) : String :=
       match ins with
       | fn :: args => judgeFn id fn args outs
       | [] => badline id
-    else if comp = "sigv4e2e" || comp = "sigv4pre" || comp = "sigv4post" then judgeE2E id ins outs
+    else if comp = "sigv4e2e" || comp = "sigv4pre" || comp = "sigv4post" || comp = "sigmix" then judgeE2E id ins outs
     else badline id
   | _ => badline "?"
 
